@@ -295,8 +295,17 @@ Definition gauss_step (b : ps) (o : op) : ps * res :=
   | _ => ps_step_common b o
   end.
 
-(* BosonicModes.add_mode(peak_list of length n): nlen += n; active.append(nlen - 1) *)
+(* BosonicModes.add_mode(peak_list of length n): nlen += n;
+   active.extend(range(nlen - n, nlen))            (since /repo 6125c3c) *)
 Definition bos_step (b : ps) (o : op) : ps * res :=
+  match o with
+  | New n => (mkPs (pact b ++ map Some (seq (length (pslots b) + n - n) n)) (pslots b ++ repeat 0%Z n), Ok)
+  | _ => ps_step_common b o
+  end.
+
+(* before 6125c3c: active.append(nlen - 1) — one entry for n new modes; kept so that the refutation
+   of the old behaviour stays machine-checked *)
+Definition bos_step_old (b : ps) (o : op) : ps * res :=
   match o with
   | New n => (mkPs (pact b ++ [Some (length (pslots b) + n - 1)]) (pslots b ++ repeat 0%Z n), Ok)
   | _ => ps_step_common b o
@@ -307,14 +316,16 @@ Fixpoint ps_modes_of (a : list (option nat)) : list nat :=
   match a with [] => [] | Some v :: r => v :: ps_modes_of r | None :: r => ps_modes_of r end.
 Definition ps_modes (b : ps) : list nat := ps_modes_of (pact b).
 
-(* GaussianBackend.state(modes=None): slots range(len(get_modes())), names get_modes()[j] *)
-Definition gauss_state (b : ps) : list (nat * Z) :=
-  combine (ps_modes b) (firstn (length (ps_modes b)) (pslots b)).
-
-(* BosonicBackend.state(modes=None): slots get_modes(), names the same values.
-   This is also what the repaired GaussianBackend.state does (fix-gaussian-state.diff). *)
-Definition bos_state (b : ps) : list (nat * Z) :=
+(* state(modes=None) of both phase-space backends: modes = get_modes(); the slots with these indices
+   are read and named q[i] with the same values (GaussianBackend since /repo 23cb098) *)
+Definition ps_state (b : ps) : list (nat * Z) :=
   map (fun v => (v, nth v (pslots b) 0%Z)) (ps_modes b).
+Definition gauss_state (b : ps) : list (nat * Z) := ps_state b.
+Definition bos_state (b : ps) : list (nat * Z) := ps_state b.
+
+(* GaussianBackend.state before 23cb098: slots range(len(get_modes())), names get_modes()[j] *)
+Definition gauss_state_old (b : ps) : list (nat * Z) :=
+  combine (ps_modes b) (firstn (length (ps_modes b)) (pslots b)).
 
 (* ------------------------------------------------------------------ product machine
    Program in front of a backend: the command only reaches the backend when the Program accepted
